@@ -136,4 +136,41 @@ CLAIMS = {
                 "%include/%import are listed, not armed.",
         "note": _TB + "  Same exception-flow assumptions as C07.",
     },
+    "C05": {
+        "level": "other",
+        "technique": "interprocedural value-origin analysis (shared-by-"
+                     "reference / fresh-per-load) + decision-table "
+                     "cross-check of handle_define and replace",
+        "text": "Decides the structural facts the %define namespace rests "
+                "on: every origin of a parser's definitions mapping is the "
+                "fresh {} of the constructor or the including parser's own "
+                "mapping (no copy on any hop of the %include chain, no "
+                "mutable default / class attribute / loader field); no other "
+                "reference to it is stored; names are lower-cased by writer "
+                "and reader; a value is expanded once, before the guard and "
+                "the store, against the same mapping; the redefinition guard "
+                "compares the expanded value with the stored one; illegal "
+                "names are rejected before the store.  Does not decide "
+                "outcomes of particular define/use/include histories (they "
+                "follow from these facts and C04; the composition is not "
+                "machine-checked).",
+        "note": _TB,
+    },
+    "C06": {
+        "level": "other",
+        "technique": "value-origin analysis + decision-table cross-check of "
+                     "handle_include / includeConfiguration / _parse_resource "
+                     "/ parser constructor",
+        "text": "Decides the four structural facts that make %include a "
+                "textual inclusion: definitions shared by reference; the "
+                "reference expanded, joined against the including parser's "
+                "own url (= its resource's url), normalised (fragment gate) "
+                "and opened under `with`; the nested parser works on the "
+                "dispatcher's current section with the same context, and a "
+                "directive never rebinds the current section; each parser "
+                "has its own initially empty section stack and cannot end "
+                "with an open section.  Does not decide equality of outcomes "
+                "with the inlined text.",
+        "note": _TB,
+    },
 }
